@@ -4,7 +4,6 @@
 use std::cell::RefCell;
 use std::panic::{catch_unwind, AssertUnwindSafe};
 use std::sync::atomic::{AtomicUsize, Ordering};
-use std::sync::Mutex;
 
 pub use lace::verif::Stop;
 
@@ -41,6 +40,12 @@ thread_local! {
     static LAST_PANIC: RefCell<Option<(String, String)>> = const { RefCell::new(None) };
 }
 
+pub static REPORT_FD: std::sync::atomic::AtomicIsize = std::sync::atomic::AtomicIsize::new(-1);
+
+thread_local! {
+    static IN_GUARD: std::cell::Cell<bool> = const { std::cell::Cell::new(false) };
+}
+
 pub fn install_panic_hook() {
     std::panic::set_hook(Box::new(|info| {
         let msg = if let Some(s) = info.payload().downcast_ref::<&str>() {
@@ -56,13 +61,24 @@ pub fn install_panic_hook() {
             .location()
             .map(|l| format!("{}:{}:{}", l.file(), l.line(), l.column()))
             .unwrap_or_default();
+        if std::thread::current().name() == Some("main") && !IN_GUARD.with(|g| g.get()) {
+            // a bug in the harness itself: make it visible on the real stdout
+            let fd = REPORT_FD.load(Ordering::Relaxed);
+            if fd >= 0 {
+                let line = format!("MACHINERY ERROR: harness panicked at {loc}: {msg}\n");
+                unsafe { libc::write(fd as i32, line.as_ptr() as *const libc::c_void, line.len()) };
+            }
+        }
         LAST_PANIC.with(|l| *l.borrow_mut() = Some((msg, loc)));
     }));
 }
 
 /// Run `f`, converting an unwind into a classified [`Stopped`].
 pub fn guard<T>(f: impl FnOnce() -> T) -> Result<T, Stopped> {
-    match catch_unwind(AssertUnwindSafe(f)) {
+    let was = IN_GUARD.with(|g| g.replace(true));
+    let r = catch_unwind(AssertUnwindSafe(f));
+    IN_GUARD.with(|g| g.set(was));
+    match r {
         Ok(v) => Ok(v),
         Err(payload) => {
             if let Some(stop) = payload.downcast_ref::<Stop>() {
@@ -173,10 +189,16 @@ pub fn threads() -> usize {
         })
 }
 
+/// Values that travel from a worker process back to the parent.
+pub trait Wire: Sized {
+    fn to_value(&self) -> serde_json::Value;
+    fn from_value(v: &serde_json::Value) -> Self;
+}
+
 /// Parallel fold over `0..n`: each worker owns an accumulator, chunks are claimed dynamically.
 /// The merge order is by worker id, and accumulators must be order-insensitive (counts, sets,
 /// violation lists that are sorted afterwards).
-pub fn par_fold<A: Send>(
+pub fn par_fold<A: Wire>(
     n: usize,
     chunk: usize,
     init: impl Fn() -> A + Sync,
@@ -187,7 +209,7 @@ pub fn par_fold<A: Send>(
 
 /// [`par_fold`] over the indices selected by `flag_of(i) == stack`, once per flag value, on
 /// workers initialised for that flag.
-pub fn pooled_by_flag<A: Send>(
+pub fn pooled_by_flag<A: Wire>(
     n: usize,
     chunk: usize,
     flag_of: impl Fn(usize) -> bool + Sync,
@@ -205,65 +227,161 @@ pub fn pooled_by_flag<A: Send>(
     out
 }
 
+static PART_COUNTER: AtomicUsize = AtomicUsize::new(0);
+
+/// Seconds a single case may take before its worker is killed (0 = no limit). Set by checks whose
+/// subject can loop forever without passing a fuel tick (the assembler).
+pub static CASE_ALARM_S: AtomicUsize = AtomicUsize::new(0);
+
+/// What happened to a worker process that did not finish.
+#[derive(Debug, Clone)]
+pub struct WorkerDeath {
+    pub index: usize,
+    pub status: String,
+}
+
+thread_local! {
+    pub static DEATHS: RefCell<Vec<WorkerDeath>> = const { RefCell::new(Vec::new()) };
+}
+
 /// Like [`par_fold`]; with `Some(env)` every worker initialises lace for `env` once and serves
 /// [`case`] calls for that environment in place.
-pub fn pooled<A: Send>(
+///
+/// Workers are forked *processes*, not threads: lace serialises on process-wide locks (stderr,
+/// the allocator's mmap paths, thread creation), which made 16 threads slower than one. Each worker
+/// inherits the parent's memory (so the work list needs no serialisation), claims chunks of
+/// indices from a counter in shared memory, and writes its accumulator to a file in the scratch
+/// directory when done. Must be called from the main thread while no other thread is running.
+pub fn pooled<A: Wire>(
     env: Option<Env>,
     n: usize,
     chunk: usize,
     init: impl Fn() -> A + Sync,
     body: impl Fn(&mut A, usize) + Sync,
 ) -> Vec<A> {
-    let next = AtomicUsize::new(0);
-    let nthreads = threads().min(n.max(1));
-    let results: Mutex<Vec<(usize, A)>> = Mutex::new(Vec::new());
-    std::thread::scope(|s| {
-        for w in 0..nthreads {
-            let next = &next;
-            let init = &init;
-            let body = &body;
-            let results = &results;
-            std::thread::Builder::new()
-                .stack_size(16 << 20)
-                .spawn_scoped(s, move || {
-                    if let Some(env) = env {
-                        if env.init_features {
-                            let features: lace::features::Features =
-                                if env.stack { "stack" } else { "" }.parse().unwrap();
-                            lace::features::init(features);
-                        }
-                        POOL_ENV.with(|p| p.set(Some((env.stack, env.init_features))));
+    let chunk = chunk.max(1);
+    let nproc = threads().min(n.div_ceil(chunk)).max(1);
+    let dir = std::path::PathBuf::from(std::env::var("LACEMC_SCRATCH").unwrap_or_else(|_| "/verif/target/scratch".into()));
+    let _ = std::fs::create_dir_all(&dir);
+    let run_id = PART_COUNTER.fetch_add(1, Ordering::Relaxed);
+    // shared: [next, current[0..nproc]]
+    let words = 1 + nproc;
+    let shared = unsafe {
+        libc::mmap(
+            std::ptr::null_mut(),
+            words * 8,
+            libc::PROT_READ | libc::PROT_WRITE,
+            libc::MAP_SHARED | libc::MAP_ANONYMOUS,
+            -1,
+            0,
+        )
+    };
+    assert!(shared != libc::MAP_FAILED, "mmap shared counter");
+    let slots: &[AtomicUsize] = unsafe { std::slice::from_raw_parts(shared as *const AtomicUsize, words) };
+    slots[0].store(0, Ordering::SeqCst);
+    for k in 0..nproc {
+        slots[1 + k].store(usize::MAX, Ordering::SeqCst);
+    }
+    let parent_pid = std::process::id();
+    let part = |k: usize| dir.join(format!("part-{}-{}-{}.json", parent_pid, run_id, k));
+    let mut pids = Vec::new();
+    for k in 0..nproc {
+        let pid = unsafe { libc::fork() };
+        assert!(pid >= 0, "fork failed");
+        if pid == 0 {
+            // ---- worker process ----
+            let result = guard(|| {
+                if let Some(env) = env {
+                    if env.init_features {
+                        let features: lace::features::Features =
+                            if env.stack { "stack" } else { "" }.parse().unwrap();
+                        lace::features::init(features);
                     }
-                    let mut acc = init();
-                    loop {
-                        let start = next.fetch_add(chunk, Ordering::Relaxed);
-                        if start >= n {
-                            break;
-                        }
-                        let end = (start + chunk).min(n);
-                        for i in start..end {
-                            body(&mut acc, i);
-                        }
+                    POOL_ENV.with(|p| p.set(Some((env.stack, env.init_features))));
+                }
+                let alarm = CASE_ALARM_S.load(Ordering::Relaxed) as u32;
+                let mut acc = init();
+                loop {
+                    let start = slots[0].fetch_add(chunk, Ordering::SeqCst);
+                    if start >= n {
+                        break;
                     }
-                    results.lock().unwrap().push((w, acc));
-                })
-                .expect("spawn worker");
+                    let end = (start + chunk).min(n);
+                    for i in start..end {
+                        slots[1 + k].store(i, Ordering::SeqCst);
+                        if alarm > 0 {
+                            unsafe { libc::alarm(alarm) };
+                        }
+                        body(&mut acc, i);
+                    }
+                }
+                if alarm > 0 {
+                    unsafe { libc::alarm(0) };
+                }
+                slots[1 + k].store(usize::MAX, Ordering::SeqCst);
+                acc
+            });
+            let code = match result {
+                Ok(acc) => {
+                    let text = serde_json::to_vec(&acc.to_value()).unwrap();
+                    match std::fs::write(part(k), text) {
+                        Ok(()) => 0,
+                        Err(_) => 3,
+                    }
+                }
+                Err(stopped) => {
+                    let _ = std::fs::write(part(k).with_extension("err"), stopped.short());
+                    4
+                }
+            };
+            unsafe { libc::_exit(code) };
         }
-    });
-    let mut v = results.into_inner().unwrap();
-    v.sort_by_key(|(w, _)| *w);
-    v.into_iter().map(|(_, a)| a).collect()
+        pids.push(pid);
+    }
+    let mut out = Vec::new();
+    let mut machinery: Vec<String> = Vec::new();
+    for (k, pid) in pids.iter().enumerate() {
+        let mut status: libc::c_int = 0;
+        let r = unsafe { libc::waitpid(*pid, &mut status, 0) };
+        let ok = r == *pid && libc::WIFEXITED(status) && libc::WEXITSTATUS(status) == 0;
+        if ok {
+            let text = std::fs::read(part(k)).expect("read worker result");
+            let v: serde_json::Value = serde_json::from_slice(&text).expect("parse worker result");
+            out.push(A::from_value(&v));
+        } else {
+            let at = slots[1 + k].load(Ordering::SeqCst);
+            let what = if libc::WIFSIGNALED(status) {
+                format!("signal {}", libc::WTERMSIG(status))
+            } else {
+                let extra = std::fs::read_to_string(part(k).with_extension("err")).unwrap_or_default();
+                format!("exit {} {}", libc::WEXITSTATUS(status), extra)
+            };
+            if at != usize::MAX {
+                DEATHS.with(|d| d.borrow_mut().push(WorkerDeath { index: at, status: what.clone() }));
+            }
+            machinery.push(format!("worker {k} died ({what}) at index {at}"));
+        }
+        let _ = std::fs::remove_file(part(k));
+        let _ = std::fs::remove_file(part(k).with_extension("err"));
+    }
+    unsafe { libc::munmap(shared, words * 8) };
+    if !machinery.is_empty() {
+        MACHINERY_ERRORS.with(|m| m.borrow_mut().extend(machinery));
+    }
+    out
 }
 
-/// Parallel map preserving order.
-pub fn par_map<R: Send>(n: usize, f: impl Fn(usize) -> R + Sync) -> Vec<R> {
-    let parts = par_fold(
-        n,
-        1,
-        Vec::new,
-        |acc: &mut Vec<(usize, R)>, i| acc.push((i, f(i))),
-    );
-    let mut all: Vec<(usize, R)> = parts.into_iter().flatten().collect();
-    all.sort_by_key(|(i, _)| *i);
-    all.into_iter().map(|(_, r)| r).collect()
+thread_local! {
+    /// Worker deaths seen by this (parent) thread; a check that finds this non-empty at the end
+    /// must not claim a verdict.
+    pub static MACHINERY_ERRORS: RefCell<Vec<String>> = const { RefCell::new(Vec::new()) };
 }
+
+pub fn take_machinery_errors() -> Vec<String> {
+    MACHINERY_ERRORS.with(|m| std::mem::take(&mut *m.borrow_mut()))
+}
+
+pub fn take_deaths() -> Vec<WorkerDeath> {
+    DEATHS.with(|m| std::mem::take(&mut *m.borrow_mut()))
+}
+
